@@ -28,3 +28,10 @@ def run(ctx, rep):
                             "hands the lines on unchanged", floor=10)
     from .chain import check_chain
     check_chain(ctx, rch, "instrument", strict=True)
+    # "end timestamp is the tempo-map time of the end tick": the query itself (C01 P1/P4, C11 index)
+    T = N.T
+    rq = rep.rule("query", "Q = governing event's time + us(sec(offset)); index function guards + scan; seconds formula", floor=5)
+    T.check_Q(rq)
+    T.check_index(rq, rq)
+    T.check_sec_formula(rq)
+    T.check_sec_monotone(rq)
